@@ -14,22 +14,21 @@ svars == <<now, st, due, stored, shadow, log, nops, ev, hist, old, hold, done>>
 
 SInit == GInit /\ done = FALSE
 
-RKey == RandomElement(Keys)
-RId  == RandomElement(Ids)
-RTtl == RandomElement(TTLs)
+\* (operators with a parameter: TLC evaluates zero-arity constant definitions only once)
+RE(S) == RandomElement(S)
 RandomCmd ==
   LET d == RandomElement(1..100) IN
-  CASE d <= 22 -> Cmd("set", RKey, RId, "", "", DlOf(RTtl))
-    [] d <= 32 -> Cmd("set", RKey, RId, "", "", NoDl)
-    [] d <= 46 -> Cmd("expire", RKey, RId, "", "", DlOf(RTtl))
-    [] d <= 54 -> Cmd("persist", RKey, RId, "", "", NoDl)
-    [] d <= 60 -> Cmd("fset", RKey, RId, "", "", NoDl)
-    [] d <= 66 -> Cmd("jset", RKey, RId, "", "", NoDl)
-    [] d <= 76 -> Cmd("del", RKey, RId, "", "", NoDl)
-    [] d <= 84 -> LET k == RKey IN Cmd("rename", k, "", RandomElement(Keys \ {k}), "", NoDl)
-    [] d <= 92 -> Cmd("sethook", RKey, "", "", RandomElement(Names), DlOf(RTtl))
-    [] d <= 95 -> Cmd("sethook", RKey, "", "", RandomElement(Names), NoDl)
-    [] OTHER   -> Cmd("delhook", "", "", "", RandomElement(Names), NoDl)
+  CASE d <= 22 -> Cmd("set", RE(Keys), RE(Ids), "", "", DlOf(RE(TTLs)))
+    [] d <= 32 -> Cmd("set", RE(Keys), RE(Ids), "", "", NoDl)
+    [] d <= 46 -> Cmd("expire", RE(Keys), RE(Ids), "", "", DlOf(RE(TTLs)))
+    [] d <= 54 -> Cmd("persist", RE(Keys), RE(Ids), "", "", NoDl)
+    [] d <= 60 -> Cmd("fset", RE(Keys), RE(Ids), "", "", NoDl)
+    [] d <= 66 -> Cmd("jset", RE(Keys), RE(Ids), "", "", NoDl)
+    [] d <= 76 -> Cmd("del", RE(Keys), RE(Ids), "", "", NoDl)
+    [] d <= 84 -> LET k == RE(Keys) IN Cmd("rename", k, "", RE(Keys \ {k}), "", NoDl)
+    [] d <= 92 -> Cmd("sethook", RE(Keys), "", "", RE(Names), DlOf(RE(TTLs)))
+    [] d <= 95 -> Cmd("sethook", RE(Keys), "", "", RE(Names), NoDl)
+    [] OTHER   -> Cmd("delhook", "", "", "", RE(Names), NoDl)
 
 SimStep == /\ ~done /\ nops < MaxOps /\ now < MaxNow
            /\ IF RandomElement(1..100) <= TickPct THEN (GTick \/ GSweep) ELSE GDo(RandomCmd)
